@@ -16,5 +16,5 @@ Extraction "e2e_model.ml"
   options_default options_fast
   options_block_size options_max_lpc_order options_max_partition_order options_padding
   options_no_padding options_seektable_seconds options_seektable_frames options_no_seektable
-  sample_new sample_run byte_new byte_run channel_new channel_run
+  sample_new sample_write sample_run byte_new byte_run channel_new channel_run stream
   encB_x read_metadata_min struct_frame subframe_bps sem_body.
